@@ -178,6 +178,7 @@ def prove_lemma(ctx, ex, con, lname, path):
             guards.append(v.t != ctx.sorts.null(v.cls))
     lp = Path(tuple(path.pc) + tuple(guards), {})
     ctx.spec_mode += 1
+    ctx.inline_all += 1        # opaque results would be constants: not allowed under the quantifier added below
     ctx.naming_off += 1        # the parameters are quantified afterwards: no constants defined in terms of them
     saved = ex.cur_mod
     try:
@@ -185,6 +186,7 @@ def prove_lemma(ctx, ex, con, lname, path):
     finally:
         ctx.spec_mode -= 1
         ctx.naming_off -= 1
+        ctx.inline_all -= 1
         ex.cur_mod = saved
     ctx.oblige(lp, f'lemma:{lname}', f'specification lemma {lname}', goal, fi.node.lineno)
     ctx.axioms.append(z3.ForAll(formals, z3.Implies(z3.And(*guards) if guards else z3.BoolVal(True), goal)))
@@ -204,9 +206,12 @@ def build(index, contracts, specs, rec, fid):
     ctx.inlined = set()
     ctx.used_contracts = set()
     ctx.wf_on = False
+    ctx.definitional = set()
+    ctx.axiom_limit = None
     ctx.applying = set()
     ctx.named_defs = []
     ctx.naming_off = 0
+    ctx.inline_all = 0
     ctx.typed_seqs = set()
     ctx.bounded_lemmas = set()
     ctx.cur_fid = fid
@@ -287,7 +292,8 @@ def _solver(ctx, hyps, goal, timeout_ms):
     s = z3.Solver()
     s.set('timeout', timeout_ms)
     s.set('random_seed', 0)
-    for a in ctx.axioms:
+    limit = getattr(ctx, 'axiom_limit', None)
+    for a in (ctx.axioms if limit is None else ctx.axioms[:limit] + [x for x in ctx.axioms[limit:] if id(x) in ctx.definitional]):
         s.add(a)
     for h in hyps:
         s.add(h)
@@ -416,6 +422,10 @@ def induction(ctx, hyps, goal, timeout_ms):
         gk = z3.substitute(goal, *at_k)
         g0 = z3.substitute(goal, *at_0)
         g1 = z3.substitute(goal, *at_k1)
+        variants = [(gk, g0, g1)]
+        if not z3.is_int_value(n):
+            # second variant: the length itself is generalised everywhere in the goal (P(k) for 0 <= k <= n)
+            variants.append((z3.substitute(gk, (n, k)), z3.substitute(g0, (n, z3.IntVal(0))), z3.substitute(g1, (n, k + 1))))
         # pointwise lemmas: equality of the k-th steps of two folds of the same kind (a separate, usually linear,
         # query; keeps products of uninterpreted terms out of the inductive step)
         step_lemmas = []
@@ -429,18 +439,47 @@ def induction(ctx, hyps, goal, timeout_ms):
                     total += dt
                     if v == 'proved':
                         step_lemmas.append(sa == sb)
-        for label, hy, gl in (('nonneg', hyps, n >= 0), ('base', hyps, g0),
-                              ('step', list(hyps) + [0 <= k, k < n, gk] + step_lemmas, g1)):
-            v, be, dt, _ = check_valid(ctx, hy, gl, timeout_ms, use_cli=False, full=False)
-            total += dt
-            backends.add(be)
-            if v != 'proved':
-                ok = False
-                tried.append(f'{label}:{v}')
-                break
-        if ok:
-            return ('proved', '+'.join(sorted(backends)) + ' fold-induction', total)
+        for vi, (gk, g0, g1) in enumerate(variants):
+            ok = True
+            for label, hy, gl in (('nonneg', hyps, n >= 0), ('base', hyps, g0),
+                                  ('step', list(hyps) + [0 <= k, k < n, gk] + step_lemmas, g1)):
+                v, be, dt, _ = check_valid(ctx, hy, gl, timeout_ms, use_cli=False, full=False)
+                total += dt
+                backends.add(be)
+                if v != 'proved':
+                    ok = False
+                    tried.append(f'{label}:{v}')
+                    break
+            if ok:
+                return ('proved', '+'.join(sorted(backends)) + ' fold-induction', total)
     return ('unknown', 'fold-induction ' + ','.join(tried), 0.0)
+
+
+def ite_conditions(t, acc, depth=0):
+    if z3.is_app(t):
+        if z3.is_app_of(t, z3.Z3_OP_ITE):
+            c = t.arg(0)
+            acc[c.get_id()] = (c, acc.get(c.get_id(), (c, 0))[1] + 1)
+        for ch in t.children():
+            ite_conditions(ch, acc, depth + 1)
+
+
+def case_split(ctx, hyps, goal, timeout_ms):
+    """split on the most frequent if-then-else condition of the goal (merged paths of an inlined callee):
+    each case is a separate, much smaller query"""
+    acc = {}
+    ite_conditions(goal, acc)
+    if not acc:
+        return None
+    c, n = max(acc.values(), key=lambda cn: cn[1])
+    total = 0.0
+    for val, hyp in ((z3.BoolVal(True), c), (z3.BoolVal(False), z3.Not(c))):
+        g = z3.simplify(z3.substitute(goal, (c, val)))
+        v, be, dt, _ = check_valid(ctx, list(hyps) + [hyp], g, timeout_ms, use_cli=False)
+        total += dt
+        if v != 'proved':
+            return ('unknown', f'case-split {"then" if z3.is_true(val) else "else"}:{v}', total)
+    return ('proved', 'z3-5.1(api) case split on an if-then-else condition', total)
 
 
 def fold_equalities(ctx, hyps, goal, timeout_ms):
@@ -483,6 +522,8 @@ def discharge(ctx, ob, timeout_ms=None, outside=None, known_ids=()):
     timeout_ms = timeout_ms or Z3_TIMEOUT_MS
     res = {'id': ob.id, 'kind': ob.kind, 'desc': ob.desc, 'lineno': ob.lineno}
     t0 = time.time()
+    # lemma obligations see only the axioms that existed when they arose (plus definitional extensions)
+    ctx.axiom_limit = getattr(ob, 'n_axioms', None) if ob.kind.startswith('lemma') else None
     inductive = ob.kind.startswith(('post', 'lemma')) or ob.kind in ('inv_preserve', 'inv_init', 'pre')
     # 1. e-matching only; 2. fold induction; 3. full z3 (model finding); 4. CLI back ends on the SMT-LIB dump
     v, be, dt, extra = check_valid(ctx, ob.hyps, ob.goal, timeout_ms, use_cli=False, full=False)
@@ -504,6 +545,12 @@ def discharge(ctx, ob, timeout_ms=None, outside=None, known_ids=()):
             v, be = 'proved', ind[1]
         elif ind is not None:
             res['induction'] = ind[1]
+    if v != 'proved' and inductive:
+        cs = case_split(ctx, ob.hyps, ob.goal, timeout_ms)
+        if cs is not None and cs[0] == 'proved':
+            v, be = 'proved', cs[1]
+        elif cs is not None:
+            res['case_split'] = cs[1]
     if v != 'proved' and inductive:
         eqs = fold_equalities(ctx, ob.hyps, ob.goal, timeout_ms)
         if eqs:
